@@ -147,6 +147,18 @@ fn run_backoff_case(log: &EvLog, run: u64, strat: &str, step: Duration, factor: 
         }
     };
     for _ in 0..draws {
+        // the iterator's auxiliary protocol: what it announces about the rest of the schedule, asked
+        // before every draw -- also on a schedule with no attempts and after the schedule has ended
+        match catch_unwind(AssertUnwindSafe(|| it.size_hint())) {
+            Ok((lo, hi)) => {
+                let cl = |v: usize| v.min(2_000_000_000) as u64;
+                log.emit("hint", json!({"lo": cl(lo), "bounded": hi.is_some(), "hi": cl(hi.unwrap_or(0))}));
+            }
+            Err(e) => {
+                log.emit("panic", json!({"msg": panic_message(&e)}));
+                return;
+            }
+        }
         match catch_unwind(AssertUnwindSafe(|| it.next())) {
             Ok(Some(a)) => {
                 if exact {
